@@ -543,6 +543,31 @@ def exhaustive_cases(maxlen, alphabet):
     return cases + exhaustive_posfmt_cases(maxlen)
 
 
+def bitset_boundary_cases():
+    """bit-set destinations at their boundary, with and without a case formatter attached (the formatter branch of
+    `TypedArg< std::bitset< N>>::assign()` has its own range test - seeded change C06-5): every N of BIT_N x
+    formatter none / upper / lower x every sequence up to length 2 over {0, N-1, N, N+1} x every cut into uses"""
+    cases = []
+    cid = 0
+    for n in BIT_N:
+        alphabet = sorted({"0", str(n - 1), str(n), str(n + 1)}, key=int)
+        for fmt in (None, "upper", "lower"):
+            conf = Conf("bitset", n=n, fmt=fmt)
+            if not conf.valid():
+                continue
+            for L in (1, 2):
+                for seq in itertools.product(alphabet, repeat=L):
+                    cid += 1
+                    lines = [conf.line()]
+                    first = True
+                    for uses in compositions(list(seq)):
+                        words = " ".join("-v " + ",".join(u) for u in uses)
+                        lines.append(("evalref " if first else "evalsame ") + words)
+                        first = False
+                    cases.append(Case("b%d" % cid, lines))
+    return cases
+
+
 def exhaustive_posfmt_cases(maxlen):
     """position formatters, one configuration per kind that allows them: every valid (clear, sort, unique) x every
     element sequence up to maxlen over a mixed-case alphabet x every cut into uses; tuples: every sequence up to
@@ -609,6 +634,7 @@ def generate(prop, tier, seed, scale=1):
         n = (600 if tier == "quick" else 30000) * scale
         yield "capacity", [capacity_case(rng, "k%d" % i) for i in range(n)]
         yield "exhaustive len<=3 over {0,1,2} + position formatters over {a,B,ab}", exhaustive_cases(3, ["0", "1", "2"])
+        yield "bit sets at the boundary N-1 / N / N+1, with and without a formatter", bitset_boundary_cases()
         return
     n = (2500 if tier == "quick" else 120000) * scale
     cases = []
@@ -620,6 +646,7 @@ def generate(prop, tier, seed, scale=1):
         else:
             cases.append(cuts_case(rng, "g%d" % i))
     yield "generated", cases
+    yield "bit sets at the boundary N-1 / N / N+1, with and without a formatter", bitset_boundary_cases()
     if tier == "quick":
         yield "exhaustive len<=3 over {0,1,2} + position formatters over {a,B,ab}", exhaustive_cases(3, ["0", "1", "2"])
     else:
